@@ -155,6 +155,23 @@ impl<'tcx> Cx<'tcx> {
 
     fn render_val(&self, v: ConstValue, ty: Ty<'tcx>) -> Option<String> {
         let tcx = self.tcx;
+        // a constant of enum type with fields (`const X: Option<usize> = None`): its variant, and the fields that render
+        if let TyKind::Adt(adt, _) = ty.kind() {
+            if adt.is_enum() && !format!("{:?}", ty).contains('/') {
+                if let Some(d) = tcx.try_destructure_mir_constant_for_user_output(v, ty) {
+                    if let Some(vi) = d.variant {
+                        let fields: Vec<String> =
+                            d.fields.iter().map(|(fv, fty)| self.render_val(*fv, *fty).unwrap_or_else(|| "null".to_string())).collect();
+                        return Some(format!(
+                            "{{\"variant\":{},\"adt\":{},\"fields\":[{}]}}",
+                            esc(adt.variant(vi).name.as_str()),
+                            esc(&tcx.def_path_str(adt.did())),
+                            fields.join(",")
+                        ));
+                    }
+                }
+            }
+        }
         match v {
             ConstValue::Scalar(sc) => {
                 if let (rustc_middle::mir::interpret::Scalar::Ptr(ptr, _), Some(Some(n))) = (sc, self.is_bytes_ref(ty)) {
